@@ -1,11 +1,31 @@
 From Coq Require Import Bool List.
 From Verif Require Import Base.Run C01.Model C01.Spec.
+Import ListNotations.
 
-Definition case := (input * bool)%type.
-Definition mk (wr wa wor : optv) (rs as_ : sigst) (enc : bool) (b : bind) (obs : bool) : case :=
-  ({| o_wr := wr; o_wa := wa; o_wor := wor; rs := rs; as_ := as_; enc := enc; binding := b |}, obs).
-Definition agrees (c : case) : bool := Bool.eqb (parse_response (fst c)) (snd c).
-Definition holds (c : case) : bool := spec_b (fst c) (snd c).
+(* one case = one Saml2Client (one configuration) consuming a sequence of messages; for every
+   message the identity (or not) observed on the real implementation *)
+Definition case := (config * list (msg * bool))%type.
+
+Definition cfg (wr wa wor only : optv) : config := {| c_wr := wr; c_wa := wa; c_wor := wor; c_only := only |}.
+Definition sg (k : key) (i : kinfo) (c : bool) : option sgn := Some {| signer := k; ki := i; corrupt := c |}.
+Definition st (rw aw : who) (r a : option sgn) (e : bool) (b : bind) (obs : bool) : msg * bool :=
+  ({| r_who := rw; a_who := aw; m_rs := r; m_as := a; m_enc := e; m_bind := b |}, obs).
+Definition mk (c : config) (steps : list (msg * bool)) : case := (c, steps).
+
+(* the four signature states of the single-message truth table, as in round 1 *)
+Definition sAbsent := sgn_of Absent.
+Definition sValid := sgn_of Valid.
+Definition sCorrupt := sgn_of Corrupt.
+Definition sUntrusted := sgn_of Untrusted.
+
+Definition bool_list_eqb (a b : list bool) : bool :=
+  Nat.eqb (length a) (length b) && forallb (fun p => Bool.eqb (fst p) (snd p)) (combine a b).
+
+Definition agrees (c : case) : bool := bool_list_eqb (sp_run (fst c) (map fst (snd c))) (map snd (snd c)).
+Definition holds (c : case) : bool := spec_seq_b (fst c) (map fst (snd c)) (map snd (snd c)).
 Definition cls (c : case) : nat := 0.
 Definition run := run_cases agrees holds cls.
-Definition explain (c : case) := (parse_response (fst c), satisfied_b (fst c)).
+(* per message: (model, observed, satisfied, otherwise valid, state of the Response signature, of the assertion's) *)
+Definition explain (c : case) :=
+  map (fun p => (parse_message (fst c) (fst p), snd p, satisfied_m_b (fst c) (fst p), otherwise_valid_b (fst p),
+                 r_state (fst c) (fst p), a_state (fst c) (fst p))) (snd c).
